@@ -1,26 +1,327 @@
 // C08 — The active chain is always a most-work chain free of invalid blocks.
-// chainsim over block trees: valid and invalid-at-connect blocks on tip / tip-1 / tip-2 / side-branch head /
-// child of an invalid block; header-only and full deliveries (all orders via state dedup), duplicate delivery,
-// InvalidateBlock, ReconsiderBlock (of the invalidated block, of a side-branch head and of a genuinely invalid
-// descendant), PreciousBlock. CheckBlockIndex() runs inside the node on every step.
+// (b) VX-SCHED (runs first: it is cheap and must always complete): every schedule with <= k deviations of
+//     thread I: InvalidateBlock(X)  (X an ancestor of the tip: >= 2 disconnects, cs_main released in between)
+//     thread D: ProcessNewBlock(S)  (S: full valid block whose header the node has never seen)
+//     on a prepared real regtest node (one fork per execution), then one more ActivateBestChain from the main
+//     thread. S is a sibling of X / a child of an already delivered sibling of X / a sibling of the tip (a
+//     descendant of X). Oracle from the harness's own block tree: the tip is a most-work block among the blocks
+//     whose whole ancestry was delivered and that neither are nor descend from X.
+// (a) chainsim over block trees: valid and invalid-at-connect blocks on tip / tip-1 / tip-2 / side-branch head /
+//     child of an invalid block; header-only and full deliveries (all orders via state dedup), duplicate delivery,
+//     InvalidateBlock, ReconsiderBlock (of the invalidated block, of a side-branch head and of a genuinely invalid
+//     descendant), PreciousBlock. CheckBlockIndex() runs inside the node on every step.
+#include <vx/sched.h>
 #include <kits/chainsim_main.h>
+#include <thread>
+
+namespace b {
+using namespace ck;
+
+struct Blk { uint256 prev; int height; };
+struct Shared {            // written by the execution (a grandchild process), read by the search driver
+    uint64_t outcome;
+    uint64_t execs;
+    uint64_t s_mid_loop;   // S's data was stored between the first and the last disconnect of InvalidateBlock
+    uint64_t s_rejected;   // ProcessNewBlock(S) returned false (S descends from the already invalidated X)
+    uint64_t s_accepted;
+    uint64_t tip_is_s;
+};
+static Shared* g_sh;
+
+struct World {
+    Node* node{nullptr};
+    std::map<uint256, Blk> tree;        // the harness's own knowledge: every block built, with parent and height
+    std::set<uint256> delivered;        // full blocks handed to the node before the exploration
+    std::vector<uint256> chain;         // base chain by height
+};
+static World W;
+
+struct Config {
+    std::string kind;   // sibling-of-X | child-of-delivered-sibling-of-X | sibling-of-tip
+    int depth;          // blocks InvalidateBlock has to disconnect
+    uint256 X;
+    CBlock S;
+    bool with_side;     // side blocks (siblings of X candidates) already delivered
+    bool unique_best;   // S is the only most-work eligible block after the invalidation
+    std::string str() const { return kind + " disconnects=" + std::to_string(depth) + (with_side ? " side-branches-delivered" : ""); }
+};
+
+// probe: BlockDisconnected is delivered synchronously by the invalidating thread, under cs_main, inside the
+// disconnect loop. Used ONLY for the non-vacuity gate (was S stored while the loop was running?), not by the oracle.
+struct Probe : public CValidationInterface {
+    uint256 s_hash;
+    int disconnects{0};
+    bool stored_at_first{false}, stored_at_last{false};
+    void BlockDisconnected(const std::shared_ptr<const CBlock>&, const CBlockIndex*) override
+    {
+        auto& bi = W.node->chainman().m_blockman.m_block_index; // cs_main is held by the caller
+        auto it = bi.find(s_hash);
+        bool stored = it != bi.end() && (it->second.nStatus & BLOCK_HAVE_DATA);
+        if (disconnects == 0) stored_at_first = stored;
+        stored_at_last = stored;
+        disconnects++;
+    }
+};
+static Probe g_probe;
+
+static bool DescendsFromOrIs(const uint256& h, const uint256& x)
+{
+    uint256 c = h;
+    while (true) {
+        if (c == x) return true;
+        auto it = W.tree.find(c);
+        if (it == W.tree.end() || it->second.height == 0) return false;
+        c = it->second.prev;
+    }
+}
+static std::string Short(const uint256& h)
+{
+    auto it = W.tree.find(h);
+    return h.ToString().substr(0, 10) + (it == W.tree.end() ? "(unknown)" : "(h" + std::to_string(it->second.height) + ")");
+}
+
+static std::string Body(const Config& c)
+{
+    Node& n = *W.node;
+    std::string err;
+    const uint256 s_hash = c.S.GetHash();
+    g_probe.s_hash = s_hash;
+    g_probe.disconnects = 0;
+    g_probe.stored_at_first = g_probe.stored_at_last = false;
+    bool inv_ret = false;
+    BlockResult dr;
+    uint256 tip_after_i, tip_after_d;
+    {
+        std::thread ti([&] { inv_ret = n.Invalidate(c.X); tip_after_i = n.tip()->GetBlockHash(); });
+        std::thread td([&] { dr = n.ProcessBlock(c.S); tip_after_d = n.tip()->GetBlockHash(); });
+        ti.join();
+        td.join();
+    }
+    {
+        BlockValidationState st;
+        n.cs().ActivateBestChain(st, nullptr);
+    }
+    // ---------------- oracle (harness tree only; regtest: every block has the same work, so work == height)
+    std::set<uint256> delivered = W.delivered;
+    delivered.insert(s_hash); // handed over with all data (if it descends from X it is excluded below anyway)
+    int best_h = -1;
+    uint256 best;
+    std::set<uint256> eligible;
+    for (auto& [h, blk] : W.tree) {
+        bool ok = true;
+        uint256 cur = h;
+        while (ok) {
+            if (cur == c.X || !delivered.count(cur)) ok = false;
+            auto& bb = W.tree.at(cur);
+            if (bb.height == 0) break;
+            cur = bb.prev;
+        }
+        if (!ok) continue;
+        eligible.insert(h);
+        if (blk.height > best_h) { best_h = blk.height; best = h; }
+    }
+    std::vector<uint256> active;
+    {
+        LOCK(cs_main);
+        auto& ch = n.chainman().ActiveChain();
+        for (int i = 0; i <= ch.Height(); i++) active.push_back(ch[i]->GetBlockHash());
+    }
+    const uint256 tip = active.back();
+    std::string ctx = "Invalidate(X=" + Short(c.X) + ") || ProcessNewBlock(S=" + Short(s_hash) + ", " + c.kind + "), then ActivateBestChain: ";
+    for (auto& h : active)
+        if (DescendsFromOrIs(h, c.X)) { err += ctx + "active chain contains " + Short(h) + " which is or descends from the invalidated block; "; break; }
+    if (!W.tree.count(tip)) err += ctx + "active tip " + Short(tip) + " is not a block the harness built; ";
+    else if (!eligible.count(tip)) err += ctx + "active tip " + Short(tip) + " is not eligible (descends from X or lacks delivered ancestry); ";
+    else if (W.tree.at(tip).height < best_h) err += ctx + "active tip is " + Short(tip) + " but " + Short(best) + " has all data on its whole ancestry, no invalidated ancestor and more work; ";
+    if (!inv_ret) err += ctx + "InvalidateBlock returned false; ";
+    // ---------------- outcome + gate counters
+    uint64_t o = vx::fnv1a(tip.ToString() + "|" + tip_after_i.ToString() + "|" + tip_after_d.ToString() + "|" + std::to_string(dr.pnb_ret) + std::to_string(dr.new_block));
+    g_sh->outcome = o;
+    __atomic_add_fetch(&g_sh->execs, 1, __ATOMIC_RELAXED);
+    if (g_probe.disconnects >= 2 && !g_probe.stored_at_first && g_probe.stored_at_last) __atomic_add_fetch(&g_sh->s_mid_loop, 1, __ATOMIC_RELAXED);
+    __atomic_add_fetch(dr.pnb_ret ? &g_sh->s_accepted : &g_sh->s_rejected, 1, __ATOMIC_RELAXED);
+    if (tip == s_hash) __atomic_add_fetch(&g_sh->tip_is_s, 1, __ATOMIC_RELAXED);
+    return err;
+}
+
+static void AddTree(const CBlock& b)
+{
+    auto& p = W.tree.at(b.hashPrevBlock);
+    W.tree[b.GetHash()] = Blk{b.hashPrevBlock, p.height + 1};
+}
+
+struct Totals {
+    uint64_t exec = 0, points = 0, configs = 0;
+    int distinct = 0;
+    bool complete = true, herr = false, violated = false;
+};
+
+// Builds the prepared node, runs every configuration. The node is destroyed on return (part (a) builds its own).
+static Totals Run(bool big)
+{
+    Totals T;
+    auto& E = vx::ev();
+    g_sh = (Shared*)mmap(nullptr, sizeof(Shared), PROT_READ | PROT_WRITE, MAP_SHARED | MAP_ANONYMOUS, -1, 0);
+    if (g_sh == MAP_FAILED) throw std::runtime_error("mmap");
+    NodeOpts no;
+    no.mempool_tweak = [](CTxMemPool::Options& o) { o.check_ratio = 0; };
+    no.check_block_index = false; // the node's own CheckBlockIndex is not the oracle here (see meta.json)
+    Node node(no);
+    W.node = &node;
+    RefLedger L;
+    L.AddGenesis(Params().GenesisBlock());
+    const int N = 8;
+    W.chain.push_back(Params().GenesisBlock().GetHash());
+    W.tree[W.chain[0]] = Blk{uint256{}, 0};
+    W.delivered.insert(W.chain[0]);
+    for (auto& h : MineEmpty(node, L, N)) {
+        W.tree[h] = Blk{W.chain.back(), (int)W.chain.size()};
+        W.chain.push_back(h);
+        W.delivered.insert(h);
+    }
+    node.m_node.validation_signals->RegisterValidationInterface(&g_probe);
+    vxs_scope_clear();
+    vxs_scope_add(&cs_main);
+    vxs_scope_add(&node.cs().m_chainstate_mutex);
+
+    auto idx = [&](const uint256& h) { return node.index_of(h); };
+    auto mk = [&](const uint256& parent, int nonce) {
+        BlockOpts o;
+        o.extra_nonce = nonce;
+        CBlock b = MakeBlock(node, idx(parent), {}, o);
+        AddTree(b);
+        return b;
+    };
+    // X at depth d = chain[N-d+1]; its parent P = chain[N-d]
+    auto X = [&](int d) { return W.chain[N - d + 1]; };
+    auto P = [&](int d) { return W.chain[N - d]; };
+    std::vector<Config> phase1, phase2;
+    // phase 1: nothing but the base chain is known to the node
+    phase1.push_back({"sibling-of-X", 2, X(2), mk(P(2), 101), false, true});
+    phase1.push_back({"sibling-of-tip", 2, X(2), mk(W.chain[N - 1], 102), false, false});
+    if (big) {
+        phase1.push_back({"sibling-of-X", 3, X(3), mk(P(3), 103), false, true});
+        phase1.push_back({"sibling-of-tip", 3, X(3), mk(W.chain[N - 1], 104), false, false});
+    }
+    // phase 2: siblings Y2 of chain[N-1] and Y3 of chain[N-2] are delivered (with data) before the exploration;
+    // S is a child of the sibling of X (more work than X's parent and than the sibling)
+    CBlock Y3 = mk(P(3), 201), Y2 = mk(P(2), 202);
+    struct Late { std::string kind; int depth; uint256 parent; int nonce; };
+    std::vector<Late> late;
+    late.push_back({"child-of-delivered-sibling-of-X", 3, Y3.GetHash(), 203});
+    if (big) {
+        late.push_back({"child-of-delivered-sibling-of-X", 2, Y2.GetHash(), 204});
+        late.push_back({"sibling-of-X", 2, P(2), 205});
+    }
+
+    // budget_frac < 1: this search may use the wall clock only up to that fraction of the tier deadline (the rest is
+    // reserved for the later configurations and for part (a)); a cut search is reported as incomplete, never as a failure.
+    const double tier_deadline = vx::ctx().deadline_s;
+    auto run_cfg = [&](const Config& c, int bound, double budget_frac) {
+        if (T.violated) return;
+        if (tier_deadline > 0) vx::ctx().deadline_s = tier_deadline * budget_frac;
+        if (vx::deadline_reached()) { T.complete = false; vx::ctx().deadline_s = tier_deadline; return; }
+        memset(g_sh, 0, sizeof *g_sh);
+        vxs::Options o;
+        o.max_preempt = bound;
+        o.free_switch = false;
+        o.fork_each = true;
+        o.exec_timeout_s = 90;
+        auto r = vxs::explore("C08b-invalidate-x-deliver[" + c.str() + "]", [&] { return Body(c); }, o, [] { return g_sh->outcome; });
+        vx::ctx().deadline_s = tier_deadline;
+        T.exec += r.executions; T.points += r.choice_points; T.configs++;
+        T.distinct += r.distinct_outcomes;
+        T.complete &= r.complete; T.herr |= r.harness_error;
+        E.sample("InvalidateBlock(X) x ProcessNewBlock(S) [" + c.str() + "]: " + std::to_string(r.executions) + " schedules with <= " + std::to_string(o.max_preempt) + " deviations, " + std::to_string(r.distinct_outcomes) + " distinct outcomes, S stored inside the disconnect loop in " + std::to_string(g_sh->s_mid_loop) + ", final tip == S in " + std::to_string(g_sh->tip_is_s) + (r.complete ? "" : " (search cut by its wall-clock budget)"), 24);
+        printf("[C08b] %s max_deviations=%d: schedules=%llu points=%llu distinct=%d mid_loop=%llu s_rejected=%llu tip_is_s=%llu complete=%d t=%.1fs\n", c.str().c_str(), o.max_preempt, (unsigned long long)r.executions, (unsigned long long)r.choice_points, r.distinct_outcomes, (unsigned long long)g_sh->s_mid_loop, (unsigned long long)g_sh->s_rejected, (unsigned long long)g_sh->tip_is_s, (int)r.complete, vx::elapsed());
+        fflush(stdout);
+        if (r.violations) { T.violated = true; return; }
+        if (!r.complete || !vx::ctx().replay.empty()) return;
+        // non-vacuity gates (a complete, violation-free search must have seen these)
+        bool desc = c.kind == "sibling-of-tip";
+        if (r.distinct_outcomes < 2) { printf("HARNESS-ERROR property=C08 part (b) [%s]: fewer than 2 distinct outcomes (the two threads never ran in both orders)\n", c.str().c_str()); T.herr = true; }
+        if (g_sh->s_mid_loop == 0) { printf("HARNESS-ERROR property=C08 part (b) [%s]: S was never stored while InvalidateBlock was between two disconnects\n", c.str().c_str()); T.herr = true; }
+        if (desc && (g_sh->s_rejected == 0 || g_sh->s_accepted == 0)) { printf("HARNESS-ERROR property=C08 part (b) [%s]: a descendant of X must be both accepted (before) and refused (after the invalidation) in some schedule\n", c.str().c_str()); T.herr = true; }
+        if (c.unique_best && g_sh->tip_is_s != g_sh->execs) { printf("HARNESS-ERROR property=C08 part (b) [%s]: S is the unique most-work eligible block but was the tip in only %llu of %llu violation-free executions\n", c.str().c_str(), (unsigned long long)g_sh->tip_is_s, (unsigned long long)g_sh->execs); T.herr = true; }
+    };
+    // every configuration with <= 1 deviation (cheap, always first); at thorough then the base configurations with
+    // <= 2 deviations inside a reserved share of the wall-clock budget.
+    // share of the tier's wall clock part (b) may use for the <= 1 deviation searches: on an idle machine they take a
+    // few seconds; under heavy load the cap keeps a share for part (a) (the first search alone fits in any case).
+    const double cap1 = big ? 0.3 : 0.5;
+    for (auto& c : phase1) run_cfg(c, 1, cap1);
+    if (big) for (size_t i = 0; i < 2 && i < phase1.size(); i++) run_cfg(phase1[i], 2, 0.15 * (i + 1) + 0.05);
+    if (!T.violated) {
+        for (const CBlock* y : {&Y3, &Y2}) {
+            auto r = node.ProcessBlock(*y);
+            if (!r.pnb_ret || node.tip()->GetBlockHash() != W.chain[N]) throw std::runtime_error("C08b: side block not stored / tip moved");
+            W.delivered.insert(y->GetHash());
+        }
+        for (auto& l : late) phase2.push_back({l.kind, l.depth, X(l.depth), mk(l.parent, l.nonce), true, l.kind != "sibling-of-X"});
+        for (auto& c : phase2) run_cfg(c, 1, big ? 0.4 : cap1);
+        if (big) run_cfg(phase2[0], 2, 0.55);
+    }
+    vxs_scope_clear();
+    node.m_node.validation_signals->UnregisterValidationInterface(&g_probe);
+    W.node = nullptr;
+    return T;
+}
+} // namespace b
+
 int main(int argc, char** argv)
 {
-    return cs::Main(argc, argv, "C08", {}, [](cs::Sim& s) {
-        cs::Plan p;
-        if (vx::thorough()) {
-            s.kinds = {"empty", "spend1", "cb_plus1_empty", "two_spenders"};
-            s.parents = {"t0", "t1", "t2", "s", "x"};
-        } else {
-            s.kinds = {"empty", "cb_plus1_empty"};
-            s.parents = {"t0", "t1", "s", "x"};
-        }
-        s.ev_flush = false; s.ev_invalidate = true; s.ev_reconsider = true; s.ev_precious = true; s.ev_headers = true;
-        s.ev_reconsider_any = true; // ReconsiderBlock on a descendant / an invalid block: must also revive its valid ancestors
-        p.depth = vx::thorough() ? 5 : 4;
-        s.max_new_blocks = vx::thorough() ? 5 : 3;
-        p.what = "oracle (from the reference tree only): tip's chain is reference-valid, fully delivered, not manually invalidated, and no such chain is longer (regtest: equal work per block, ties accepted)";
-        s.cursor_check = false;
-        return p;
-    });
+    vx::init(argc, argv, "C08", "model_checking", 170, 1500);
+    vx::scratch_dir();
+    auto& E = vx::ev();
+    bool big = vx::thorough();
+    bool replay_is_history = false;
+    if (!vx::ctx().replay.empty()) {
+        std::ifstream f(vx::ctx().replay);
+        std::string line;
+        while (std::getline(f, line)) if (line.rfind("history: ", 0) == 0) replay_is_history = true;
+    }
+    // ---- part (b): schedules. Runs first: a few hundred executions that must complete even when the machine is
+    // loaded; part (a) then uses whatever is left of the tier's wall-clock budget.
+    b::Totals T;
+    if (!replay_is_history) {
+        T = b::Run(big);
+        if (!vx::ctx().replay.empty()) return T.violated ? 1 : 0;
+    }
+    E.set("schedules", T.exec);
+    E.set("configurations", T.configs);
+    E.set("distinct_outcomes", (uint64_t)T.distinct);
+    E.set("part_b_scheduling_points", T.points);
+    E.set("part_b_max_deviations", (uint64_t)(big ? 2 : 1));
+    E.set("part_b_complete", (uint64_t)T.complete);
+    // ---- part (a): histories (the process is still single-threaded: every execution of (b) ran in a fork)
+    if (!T.violated && !T.herr) {
+        int rc = cs::Explore("C08", {}, [](cs::Sim& s) {
+            cs::Plan p;
+            if (vx::thorough()) {
+                s.kinds = {"empty", "spend1", "cb_plus1_empty", "two_spenders"};
+                s.parents = {"t0", "t1", "t2", "s", "x"};
+            } else {
+                s.kinds = {"empty", "cb_plus1_empty"};
+                s.parents = {"t0", "t1", "s", "x"};
+            }
+            s.ev_flush = false; s.ev_invalidate = true; s.ev_reconsider = true; s.ev_precious = true; s.ev_headers = true;
+            s.ev_reconsider_any = true; // ReconsiderBlock on a descendant / an invalid block: must also revive its valid ancestors
+            p.depth = vx::thorough() ? 5 : 4;
+            s.max_new_blocks = vx::thorough() ? 5 : 3;
+            p.what = "oracle (from the reference tree only): tip's chain is reference-valid, fully delivered, not manually invalidated, and no such chain is longer (regtest: equal work per block, ties accepted)";
+            s.cursor_check = false;
+            return p;
+        });
+        if (rc >= 0) return rc;
+    }
+    E.set("part_a_node_states", E.states.load());
+    E.set("part_a_node_transitions", E.transitions.load());
+    E.states += T.points;
+    E.transitions += T.points;
+    E.traces_validated += T.exec;
+    if (!T.complete) E.exhaustive = false;
+    E.rule = "part (a): " + E.rule + " || part (b) schedules: on a prepared node (8-block chain; in phase 2 also two delivered side blocks) every schedule of {thread I: InvalidateBlock(X)+ActivateBestChain with X 2-3 blocks below the tip, thread D: ProcessNewBlock(S) for a never-announced full valid block S in {sibling of X, child of a delivered sibling of X, sibling of the tip (descends from X)}} with at most 1 deviation from the default scheduler (preemption of a runnable thread or a non-default pick at a blocking point) for every configuration and, at thorough, at most 2 deviations for the three base configurations (sibling of X / sibling of the tip with 2 disconnects, child of a delivered sibling with 3 disconnects; each inside a reserved share of the wall-clock budget, a cut search is reported and clears exhaustive); configurations = (S kind, number of disconnects, deviation bound) searches, one fork of the node per schedule, then ActivateBestChain from the main thread; preemption points: lock/unlock of cs_main and of the chainstate's m_chainstate_mutex, condition variables, thread create/join; oracle from the harness's own tree: the tip is a most-work block among those with fully delivered ancestry that neither are nor descend from X (ties accepted) and no descendant of X is active; distinct outcomes = (final tip, tip seen by each thread when its call returned, ProcessNewBlock result); gates: both thread orders seen, S stored between two disconnects seen; schedules = executions, part_b_scheduling_points are added to states/transitions";
+    E.assume("part (b): sequentially consistent interleavings; only cs_main and m_chainstate_mutex offer preemption (other mutexes are modelled for blocking only); -checkblockindex off in part (b) (InvalidateBlock itself documents a transient block-index inconsistency when a block arrives during its disconnect loop, which CheckBlockIndex would abort on); regtest equal work per block, so work is compared by height");
+    if (T.herr) return 2;
+    return vx::finish();
 }
